@@ -78,6 +78,15 @@ FieldSeq(td, fs, prefix) ==
 LevelOf(named, tail, version, descr) ==
   [named |-> named, tail |-> tail, version |-> version, vtag |-> "d", ftu |-> FALSE,
    version_text |-> "0.0.7", descr |-> descr, help_names |-> <<"-h", "--help">>, ver_names |-> <<"-V", "--version">>]
+\* the blocks of a type-level doc comment: description, header, footer (the rest); an explicit descr(..) or header(..)
+\* replaces the block it names
+WithDocs(lvl, td) ==
+  LET docs == IF "docs" \in DOMAIN td THEN td.docs ELSE <<>>
+      Blk(n) == IF Len(docs) >= n THEN docs[n] ELSE ""
+      da == IF "descr_attr" \in DOMAIN td THEN td.descr_attr ELSE ""
+      ha == IF "header_attr" \in DOMAIN td THEN td.header_attr ELSE "" IN
+  [lvl EXCEPT !.descr = IF da # "" THEN da ELSE Blk(1)] @@
+  [header |-> IF ha # "" THEN ha ELSE Blk(2), footer |-> Blk(3)]
 TailOf(pos) == IF pos = <<>> THEN [kind |-> "none"] ELSE [kind |-> "pos", items |-> pos]
 
 VariantLeaf(v, id) ==
@@ -95,7 +104,14 @@ Derive(td) ==
                               hidden |-> FALSE, guard |-> FALSE, catch |-> FALSE, help |-> ""]>>,
                [kind |-> "none"], td.version, "")
   ELSE IF td.shape \in {"struct", "tuple"}
-  THEN LET fs == FieldSeq(td, td.fields, "f") IN LevelOf(fs.named, TailOf(fs.pos), td.version, "")
+  THEN LET fs == FieldSeq(td, td.fields, "f") IN WithDocs(LevelOf(fs.named, TailOf(fs.pos), td.version, ""), td)
+  ELSE IF td.shape = "cmdstruct"
+  THEN \* a type that is a subcommand by itself: the command is named after the type, in kebab-case
+       LET fs == FieldSeq(td, td.fields, "f") IN
+       LevelOf(<<>>, [kind |-> "cmd", optional |-> FALSE, else_pos |-> <<>>,
+                      cmds |-> <<[names |-> <<Kebab(td.tchars)>>, shorts |-> <<>>, adjacent |-> FALSE, help |-> td.help,
+                                  nchars |-> <<>>, level |-> LevelOf(fs.named, TailOf(fs.pos), FALSE, td.help)]>>],
+               FALSE, "")
   ELSE IF \A k \in DOMAIN td.variants : td.variants[k].command
   THEN \* every variant is a subcommand named after it; its fields form the subcommand's own parser
        LevelOf(<<>>,
